@@ -70,12 +70,13 @@ def plan(rng, idx, tier):
     start = lc.plan_start(rng.sub('start'), spec)
     mixname = rng.weighted([('markers', 5), ('edits', 4), ('illformed', 2)])
     n = 1 + rng.randrange(12)
-    if idx % 300 in (101, 102, 103):
+    if idx % 300 in (101, 102, 103, 104):
         # sizes beyond the usual: thresholds in nesting depth, branches per node, rounds of the fallback loop
         sr = rng.sub('scale')
         start = [{'kind': 'deep_chain', 'n': sr.pick([105, 130, 160])},
                  {'kind': 'wide_node', 'n': sr.pick([34, 48, 70]), 'clash': sr.chance(0.5)},
-                 {'kind': 'clash_chain', 'n': sr.pick([8, 14, 20])}][idx % 300 - 101]
+                 {'kind': 'clash_chain', 'n': sr.pick([8, 14, 20])},
+                 {'kind': 'deferred_leaves', 'm': sr.pick([5, 9, 14]), 'k': sr.pick([3, 4, 6]), 'n': 0}][idx % 300 - 101]
         mixname, n = 'markers', sr.randrange(4)
     ops = lc.plan_ops(rng.sub('ops'), n, MIXES[mixname])
     return {'property': ID, 'model': spec, 'start': start, 'mix': mixname, 'ops': ops,
@@ -242,6 +243,10 @@ def shrink(trace):
             s2 = dict(st)
             s2.pop('top')
             yield with_path(trace, ['start'], s2)
+    elif st['kind'] == 'deferred_leaves':
+        for key_ in ('m', 'k'):
+            if st[key_] > 1:
+                yield with_path(trace, ['start', key_], st[key_] - 1)
     elif st['kind'] in ('deep_chain', 'wide_node', 'clash_chain'):
         for smaller in (st['n'] // 2, st['n'] - 10, st['n'] - 1):
             if 2 <= smaller < st['n']:
